@@ -88,6 +88,7 @@ def start_db(ptype, page, tables, streams, opts, expected):
     for r in expected["catalog_rows"]["_Columns"]:
         db.bits_override[(r[0], r[2])] = r[3] & 0xFFFF
     db.streams = {n: list(b) for n, b in streams.items()}
+    db.orphan_validation = [list(r) for r in expected.get("orphan_validation", [])]
     return db
 
 
